@@ -3,7 +3,7 @@
    A history is a sequence of input calls (by size) and window announcements; the window is learned while a
    message is processed, i.e. after the counting step of the call that carries it (DESIGN 10.3).
    The u32 counter saturates at 2^32-1 (repaired behaviour); exactness is stated below that limit. *)
-From RML Require Import Model.Base Model.SessionCommon Proofs.AckProofs.
+From RML Require Import Model.Base Model.Chunk Model.Messages Model.SessionCommon Model.Server Model.Client Proofs.AckProofs Proofs.InteropProofs Proofs.SessionAck.
 Local Open Scope N_scope.
 
 Theorem C17_step : forall a w len,
@@ -39,6 +39,31 @@ Theorem C17_saturation : forall a w len a' n,
   ack_window a = Some w -> ack_step a len = (a', Some n) -> n <= 4294967295 /\ w <= n /\ n <= ack_since a + len.
 Proof. exact ack_step_saturates. Qed.
 
+(* the sessions run exactly this counter: once per handle_input call, first, on the size of the input; a due Acknowledgement is the
+   first result of the call and carries the counted bytes; afterwards only the windows announced by the call's own messages are
+   learned (the byte count is not touched by any handler) *)
+Theorem C17_server_session_runs_the_counter : forall s input clock, ser_ok (sv_ser s) ->
+  let '(a, due) := ack_step (sv_ack s) (lenN input) in
+  ack_since (sv_ack (fst (server_handle_input s input clock))) = ack_since a /\
+  match due, snd (server_handle_input s input clock) with
+  | Some n, ROk rs => exists b ser' more, send_message (sv_ser s) (MAcknowledgement n) clock 0 false false = Ok (b, ser') /\ rs = SPacket b false :: more
+  | _, _ => True
+  end.
+Proof. exact server_input_ack. Qed.
+
+Theorem C17_server_session_state : forall s input clock, ser_ok (sv_ser s) ->
+  exists ws, sv_ack (fst (server_handle_input s input clock)) = fold_left ack_learn ws (fst (ack_step (sv_ack s) (lenN input))).
+Proof. exact server_input_ack_state. Qed.
+
+Theorem C17_client_session_runs_the_counter : forall c input clock, ser_ok (cl_ser c) ->
+  let '(a, due) := ack_step (cl_ack c) (lenN input) in
+  (exists ws, cl_ack (fst (client_handle_input c input clock)) = fold_left ack_learn ws a) /\
+  match due, snd (client_handle_input c input clock) with
+  | Some n, COk rs => exists b ser' more, send_message (cl_ser c) (MAcknowledgement n) clock 0 false false = Ok (b, ser') /\ rs = CPacket b false :: more
+  | _, _ => True
+  end.
+Proof. exact client_input_ack. Qed.
+
 Example C17_example :
   ack_run {| ack_window := None; ack_since := 0 |} [ACall 10; ALearn 5; ACall 3; ACall 3; ACall 1; ALearn 2; ACall 1; ACall 1] =
   ({| ack_window := Some 2; ack_since := 1 |}, [None; None; Some 6; None; Some 2; None]).
@@ -49,3 +74,6 @@ Print Assumptions C17_exactly_those_calls.
 Print Assumptions C17_conservation.
 Print Assumptions C17_outstanding_below_window.
 Print Assumptions C17_saturation.
+Print Assumptions C17_server_session_runs_the_counter.
+Print Assumptions C17_server_session_state.
+Print Assumptions C17_client_session_runs_the_counter.
